@@ -27,9 +27,24 @@ pub(crate) fn parse_source_and_includes<P: AsRef<Path>>(
     source_string: &str,
     search_path_list: Option<&[P]>,
 ) -> (Option<ParsedSource>, Vec<SourceFile>) {
+    parse_source_and_includes_in(source_string, search_path_list, &mut Vec::new())
+}
+
+/// Return the canonical form of `path`, or `path` itself if it cannot be canonicalized.
+pub(crate) fn canonical_or_same(path: &Path) -> PathBuf {
+    fs::canonicalize(path).unwrap_or_else(|_| path.to_path_buf())
+}
+
+/// Same as `parse_source_and_includes`. `open_files` holds the canonical paths of the files
+/// whose inclusion is in progress, outermost first. It is used to refuse recursive inclusion.
+pub(crate) fn parse_source_and_includes_in<P: AsRef<Path>>(
+    source_string: &str,
+    search_path_list: Option<&[P]>,
+    open_files: &mut Vec<PathBuf>,
+) -> (Option<ParsedSource>, Vec<SourceFile>) {
     let parsed_source = synast::SourceFile::parse_check_lex(source_string);
     let parsed_included_source = if parsed_source.have_parse() {
-        parse_included_files(&parsed_source, search_path_list)
+        parse_included_files(&parsed_source, search_path_list, open_files)
     } else {
         Vec::<SourceFile>::new()
     };
@@ -228,24 +243,38 @@ pub(crate) fn read_source_file(file_path: &Path) -> String {
     }
 }
 
-// FIXME: prevent a file from including itself. Then there are two-file cycles, etc.
 ///  Recursively parse any files `include`d in the program `syntax_ast`.
 /// `syntax_ast` -- the already-parsed parent source file.
 /// `search_path_list` -- a list of paths used for resolving filenams in `include` statements.
+/// `open_files` -- canonical paths of the files whose inclusion is in progress. A file on this
+/// list is not read again: including it is recorded as an `IncludeError` (`InvalidInput`).
 pub(crate) fn parse_included_files<P: AsRef<Path>>(
     syntax_ast: &ParsedSource,
     search_path_list: Option<&[P]>,
+    open_files: &mut Vec<PathBuf>,
 ) -> Vec<SourceFile> {
     fn parse_one_included<P: AsRef<Path>>(
         full_path: &PathBuf,
         include: synast::Include,
         search_path_list: Option<&[P]>,
+        open_files: &mut Vec<PathBuf>,
     ) -> Option<SourceFile> {
-        let maybe_source_string = fs::read_to_string(full_path);
+        let canonical_path = canonical_or_same(full_path);
+        // A file must not include itself, directly or through other files.
+        let maybe_source_string = if open_files.contains(&canonical_path) {
+            Err(io::Error::from(io::ErrorKind::InvalidInput))
+        } else {
+            fs::read_to_string(full_path)
+        };
         match maybe_source_string {
             Ok(source_string) => {
-                let (syntax_ast, parsed_included_source) =
-                    parse_source_and_includes(source_string.as_str(), search_path_list);
+                open_files.push(canonical_path);
+                let (syntax_ast, parsed_included_source) = parse_source_and_includes_in(
+                    source_string.as_str(),
+                    search_path_list,
+                    open_files,
+                );
+                open_files.pop();
                 Some(SourceFile::new(
                     full_path,
                     syntax_ast,
@@ -284,7 +313,7 @@ pub(crate) fn parse_included_files<P: AsRef<Path>>(
                     None
                 } else {
                     let full_path = resolve_file_path(&file_path, search_path_list);
-                    parse_one_included(&full_path, include, search_path_list)
+                    parse_one_included(&full_path, include, search_path_list, open_files)
                 }
             }
             _ => None,
